@@ -194,6 +194,9 @@ class _VGLevyMeasure(LevyMeasure):
     def integrate_against_xn(self, a: float, b: float, n: int):
         c = self.parameters._c
 
+        if n == 0:
+            return self.integrate(a, b)
+
         if a < 0 < b:
             return self.integrate_against_xn(a, 0.0, n) + self.integrate_against_xn(
                 0.0, b, n
